@@ -51,22 +51,25 @@ func ValKeys(n int) []*ecdsa.PrivateKey {
 func Genesis(w *txgen.World, powers []int64, galaxias *uint64) *genesis.Genesis {
 	netsim.Quiet()
 	keys := ValKeys(len(powers))
-	return netsim.MakeGenesis(keys, powers, ChainID, func(g *genesis.Genesis) {
-		cfg := *configs.TestnetChainConfig
-		cfg.ChainID = new(big.Int).Set(w.ChainID)
-		cfg.GalaxiasBlock = galaxias
-		g.Config = &cfg
-		for a, acc := range w.Accounts {
-			ga := genesis.GenesisAccount{Balance: new(big.Int).Set(acc.Balance), Nonce: acc.Nonce, Code: acc.Code}
-			if len(acc.Storage) > 0 {
-				ga.Storage = map[common.Hash]common.Hash{}
-				for k, v := range acc.Storage {
-					ga.Storage[k] = v
-				}
+	return netsim.MakeGenesis(keys, powers, ChainID, func(g *genesis.Genesis) { AddWorld(g, w, galaxias) })
+}
+
+// AddWorld puts the world's accounts and fork schedule into a genesis.
+func AddWorld(g *genesis.Genesis, w *txgen.World, galaxias *uint64) {
+	cfg := *configs.TestnetChainConfig
+	cfg.ChainID = new(big.Int).Set(w.ChainID)
+	cfg.GalaxiasBlock = galaxias
+	g.Config = &cfg
+	for a, acc := range w.Accounts {
+		ga := genesis.GenesisAccount{Balance: new(big.Int).Set(acc.Balance), Nonce: acc.Nonce, Code: acc.Code}
+		if len(acc.Storage) > 0 {
+			ga.Storage = map[common.Hash]common.Hash{}
+			for k, v := range acc.Storage {
+				ga.Storage[k] = v
 			}
-			g.Alloc[a] = ga
 		}
-	})
+		g.Alloc[a] = ga
+	}
 }
 
 // Rejected is one transaction the block processing skipped, as logged by commitBlock.
@@ -116,6 +119,10 @@ type Chain struct {
 	BO       *blockchain.BlockOperations // the replica's BlockOperations (own instance, logging into Rej)
 	Exec     *cstate.BlockExecutor
 	Rej      *RejLog
+	ValHook  func(height uint64, appVals []*types.Validator) []*types.Validator
+	AppVals  []string // validators the application returned for the last block (canonical order)
+	AppOrder []string // ... in the order it reported them
+	Returned []string // what the executor was given (after ValHook)
 	Gen      *genesis.Genesis
 	Keys     []*ecdsa.PrivateKey
 	State    cstate.LatestBlockState // consensus state after the last applied block (ApplyBlock-driven chains)
@@ -147,18 +154,46 @@ func New(g *genesis.Genesis, nVals int, base kaidb.Database, cache *blockchain.C
 	c.BO = blockchain.NewBlockOperations(lg, n.BC, n.Pool, n.EvPool, su)
 	quiet := log.New()
 	quiet.SetHandler(log.DiscardHandler())
-	c.Exec = cstate.NewBlockExecutor(n.Store, quiet, n.EvPool, c.BO)
+	c.Exec = cstate.NewBlockExecutor(n.Store, quiet, n.EvPool, &appStore{c.BO, c})
+	c.Exec.SetEventBus(n.Bus)
 	return c, nil
+}
+
+// appStore is the cstate.BlockStore the replica's executor talks to: the real BlockOperations,
+// observed (validators returned by the application, app hash) and optionally with the returned
+// validator list rewritten by ValHook (the same multiset on every replica, in replica-specific order).
+type appStore struct {
+	*blockchain.BlockOperations
+	c *Chain
+}
+
+func (a *appStore) CommitAndValidateBlockTxs(b *types.Block, lc stypes.LastCommitInfo, byz []stypes.Evidence) ([]*types.Validator, common.Hash, error) {
+	vals, root, err := a.BlockOperations.CommitAndValidateBlockTxs(b, lc, byz)
+	a.c.AppVals = SortedVals(vals)
+	a.c.AppOrder = nil
+	for _, v := range vals {
+		a.c.AppOrder = append(a.c.AppOrder, fmt.Sprintf("%x", v.Address[:4]))
+	}
+	if err == nil && a.c.ValHook != nil {
+		vals = a.c.ValHook(b.Height(), vals)
+	}
+	a.c.Returned = SortedVals(vals)
+	return vals, root, err
 }
 
 // RawBlockInfo reads the stored execution result of a block without rawdb.ReadBlockInfo's
 // derivation step (which refuses blocks whose receipt count differs from the transaction
 // count, i.e. every block with a skipped transaction).
 func (c *Chain) RawBlockInfo(hash common.Hash, height uint64) *types.BlockInfo {
+	return RawBlockInfo(c.N.DB, hash, height)
+}
+
+// RawBlockInfo reads the stored block info record of a block from a node database.
+func RawBlockInfo(db kaidb.Database, hash common.Hash, height uint64) *types.BlockInfo {
 	key := append([]byte("i"), make([]byte, 8)...)
 	binary.BigEndian.PutUint64(key[1:], height)
 	key = append(key, hash.Bytes()...)
-	data, _ := c.N.DB.Get(key)
+	data, _ := db.Get(key)
 	if len(data) == 0 {
 		return nil
 	}
